@@ -17,11 +17,14 @@ use crate::shell;
 use etherparse::*;
 use std::io::Cursor;
 
-pub struct C08 {}
+pub struct C08 {
+    /// (row of HEADERS, input) for the next call of `bytes_dir` (engine `bytesweep`)
+    forced: Option<(usize, Vec<u8>)>,
+}
 
 impl C08 {
     pub fn new() -> C08 {
-        C08 {}
+        C08 { forced: None }
     }
 }
 
@@ -92,9 +95,15 @@ mod slice_doors {
 
 impl C08 {
     fn bytes_dir(&mut self, rep: &mut Report, rng: &mut Prng) {
-        let ti = rng.usize_below(HEADERS.len());
+        let (ti, forced_input) = match self.forced.take() {
+            Some((ti, b)) => (ti, Some(b)),
+            None => (rng.usize_below(HEADERS.len()), None),
+        };
         let t = &HEADERS[ti];
-        let mut input = (t.gen)(rng);
+        let mut input = match forced_input {
+            Some(b) => b,
+            None => (t.gen)(rng),
+        };
         rep.evals += 1;
         shell::progress_entry(800 + ti as u64);
         let base_name = t.name.split('(').next().unwrap();
@@ -783,6 +792,7 @@ impl Monitor for C08 {
             ("values", tier.pick(1_500_000, 300_000_000)),
             ("setters", tier.pick(300_000, 60_000_000)),
             ("api", tier.pick(300_000, 60_000_000)),
+            ("bytesweep", tier.pick(8_000, 1_000_000)),
         ]
     }
 
@@ -792,6 +802,21 @@ impl Monitor for C08 {
             "values" => self.values(rep, rng),
             "setters" => self.setters(rep, rng),
             "api" => super::api::c08(rep, rng),
+            "bytesweep" => {
+                // one byte of one generated header through all 256 values
+                let ti = rng.usize_below(HEADERS.len());
+                let base = (HEADERS[ti].gen)(rng);
+                if !base.is_empty() {
+                    let pos = rng.usize_below(base.len().min(64));
+                    for v in 0..=255u8 {
+                        let mut b = base.clone();
+                        b[pos] = v;
+                        self.forced = Some((ti, b));
+                        rep.count("bytesweep_cases");
+                        self.bytes_dir(rep, rng);
+                    }
+                }
+            }
             _ => {}
         }
     }
